@@ -136,5 +136,23 @@ func runCheck(prop, tier, only string) (code int) {
 		fmt.Println("spec/expect.json missing:", err)
 		return 2
 	}
-	return run.Finish(vd, findings, expect, p.SourceInfo())
+	selfMissed := 0
+	if tier == "thorough" {
+		notes, missed, err := props.SelfTest(prop, vd, findings)
+		if err != nil {
+			run.Note("selftest unavailable: %v", err)
+		}
+		for _, n := range notes {
+			run.Note("%s", n)
+		}
+		for _, m := range missed {
+			fmt.Printf("SELFTEST-MISSED seed=%s: the seeded breaking change is no longer reported by %s (machinery regression)\n", m, prop)
+		}
+		selfMissed = len(missed)
+	}
+	code = run.Finish(vd, findings, expect, p.SourceInfo())
+	if code == 0 && selfMissed > 0 {
+		code = 2
+	}
+	return code
 }
